@@ -2,6 +2,7 @@
 package htmldoc
 
 import (
+	"bytes"
 	"fmt"
 	"io"
 	"os"
@@ -37,7 +38,15 @@ func Open(filename string) (*Reader, error) {
 
 // OpenReader parses HTML from an io.Reader.
 func OpenReader(r io.Reader) (*Reader, error) {
-	doc, err := html.Parse(r)
+	data, err := io.ReadAll(r)
+	if err != nil {
+		return nil, fmt.Errorf("reading HTML: %w", err)
+	}
+	if err := checkNestingDepth(data); err != nil {
+		return nil, fmt.Errorf("parsing HTML: %w", err)
+	}
+
+	doc, err := html.Parse(bytes.NewReader(data))
 	if err != nil {
 		return nil, fmt.Errorf("parsing HTML: %w", err)
 	}
@@ -56,6 +65,52 @@ func OpenReader(r io.Reader) (*Reader, error) {
 	reader.extractBody(doc)
 
 	return reader, nil
+}
+
+// maxNestingDepth bounds how deeply elements may be nested. Tree construction
+// in golang.org/x/net/html is quadratic in the nesting depth (20000 nested
+// <ul><li> - 160 KB - take about ten seconds), so far deeper nesting than any
+// real page uses is refused up front.
+const maxNestingDepth = 2000
+
+// checkNestingDepth makes a linear pass over the tags and fails when more than
+// maxNestingDepth elements are open at once. Void elements and elements whose
+// end tag is optional (p, li, td, ...) are not counted: consecutive ones are
+// siblings, not nested, so long documents that never close them stay readable.
+func checkNestingDepth(data []byte) error {
+	z := html.NewTokenizer(bytes.NewReader(data))
+	depth := 0
+	for {
+		switch z.Next() {
+		case html.ErrorToken:
+			return nil
+		case html.StartTagToken:
+			name, _ := z.TagName()
+			if countsForNesting(string(name)) {
+				depth++
+				if depth > maxNestingDepth {
+					return fmt.Errorf("elements nested deeper than %d levels", maxNestingDepth)
+				}
+			}
+		case html.EndTagToken:
+			name, _ := z.TagName()
+			if countsForNesting(string(name)) && depth > 0 {
+				depth--
+			}
+		}
+	}
+}
+
+// countsForNesting reports whether an open tag of this name stays open until
+// its own end tag.
+func countsForNesting(name string) bool {
+	switch name {
+	case "area", "base", "br", "col", "embed", "hr", "img", "input", "link", "meta", "param", "source", "track", "wbr",
+		"p", "li", "dd", "dt", "tr", "td", "th", "thead", "tbody", "tfoot", "colgroup", "caption", "option", "optgroup",
+		"rb", "rp", "rt", "rtc", "html", "head", "body":
+		return false
+	}
+	return true
 }
 
 // Close releases resources associated with the Reader.
